@@ -142,4 +142,33 @@ Proof.
       * reflexivity.
 Qed.
 
+(* the same when the node's buffer list is replaced between calls: EVERY call pulls exactly
+   LEN frames, whatever the number of buffers (zero included), and call k writes frames
+   k*LEN .. k*LEN+LEN-1 onto the buffers it was given *)
+Theorem signal_stream_v : forall (outs : list bufs) (st : St), Forall wfbs outs ->
+  exists res, signal_calls_v LEN next CH outs st = Ok (sig_state (length outs * LEN) st, res) /\
+    length res = length outs /\
+    forall k out o, nth_error outs k = Some out -> nth_error res k = Some o ->
+      length o = length out /\ wfbs o /\
+      forall ch j, j < LEN ->
+        nth2 o ch j = if ch <? Nat.min CH (length out) then nth_error (sig_frame (k * LEN + j) st) ch
+                      else nth2 out ch j.
+Proof.
+  induction outs as [|out ot IH]; intros st Ho.
+  - exists []. split; [reflexivity|]. split; [reflexivity|]. intros [|k] ? ? E; discriminate.
+  - inversion Ho as [|? ? Ho1 Ho2]; subst. cbn [signal_calls_v].
+    destruct (signal_call st [] out Ho1) as [out1 [E1 [W1 [L1 P1]]]]. rewrite E1. cbn [bind fst snd].
+    destruct (IH (sig_state LEN st) Ho2) as [res [E [Ln P]]]. rewrite E. cbn [bind fst snd].
+    exists (out1 :: res). split.
+    { f_equal. f_equal. cbn [length Nat.mul]. now rewrite sig_state_add. }
+    split; [cbn; lia|]. intros [|k] out' o Eo Er; cbn [nth_error] in Eo, Er.
+    + inversion Eo; inversion Er; subst. repeat split; auto. intros ch j Hj. rewrite P1.
+      destruct (Nat.ltb_spec j LEN); try lia. now rewrite andb_true_r.
+    + destruct (P k out' o Eo Er) as [Lo [Wo Po]]. split; [exact Lo|]. split; [exact Wo|].
+      intros ch j Hj. rewrite (Po ch j Hj).
+      destruct (ch <? Nat.min CH (length out')) eqn:Ech; auto.
+      unfold NodesSpec.sig_frame. rewrite <- sig_state_add.
+      assert (EE : LEN + (k * LEN + j) = S k * LEN + j) by (cbn [Nat.mul]; lia). rewrite EE. reflexivity.
+Qed.
+
 End SignalProofs.
